@@ -720,6 +720,25 @@ class Controller:
         advertiser.stop()
 
     def on_le_disconnected(self, connection: Connection, reason: int) -> None:
+        # The CIS links carried by this connection end with it
+        for cis_link in list(self.central_cis_links.values()) + list(
+            self.peripheral_cis_links.values()
+        ):
+            if cis_link.acl_connection is not connection:
+                continue
+            if cis_link.established:
+                self.on_le_cis_disconnected(cis_link.cig_id, cis_link.cis_id)
+            elif cis_link.handle in self.peripheral_cis_links:
+                # Requested by the peer, not accepted yet
+                del self.peripheral_cis_links[cis_link.handle]
+            else:
+                # Being created: conclude the pending LE Create CIS
+                cis_link.acl_connection = None
+                self.send_le_cis_established_event(
+                    cis_link,
+                    hci.HCI_ErrorCode.CONNECTION_FAILED_TO_BE_ESTABLISHED_ERROR,
+                )
+
         # Send a disconnection complete event
         self.send_hci_packet(
             hci.HCI_Disconnection_Complete_Event(
